@@ -119,6 +119,8 @@ func newRichDoc(c *fw.Case) *richDoc {
 			// two nested sections whose members flatten to one name
 			"smtp": map[string]any{"host_name": "m1", "port": 25.0}, "smtp_host": map[string]any{"name": "m2"}, "cache": map[string]any{"ttl_ms": map[string]any{"value": 1.0}}, "cache_ttl": map[string]any{"ms_value": 2.0}}
 		row["obj"].(map[string]any)["tags"] = []any{1.0, 1.0, 2.0, 3.0}
+		// numbers with NULLs among them, a NULL in front of a value
+		row["scores"] = []any{nil, float64(1 + c.Intn(9)), 2.0, nil, float64(c.Intn(5))}[:2+c.Intn(4)]
 	}
 	u := gen.RandTable(c.R, gen.TableSpec{Name: "u1", MaxRows: 4, NumCols: 1, StrCols: 1, StrStyle: gen.Plain, ColPrefix: "u"})
 	for _, row := range u.Rows {
@@ -344,6 +346,10 @@ var richForms = []richForm{
 	{"plain.not-whole-rows", false, false, func(c *fw.Case, d *richDoc, vf string) string {
 		// NOT over an un-aliased table, whole rows in the same result
 		return gen.Pick(c.R, []string{"SELECT s1, *, COUNT(*) AS c FROM t1 WHERE NOT (n1 > " + numConst(c, d) + ") GROUP BY s1", "SELECT * FROM t1 WHERE NOT (n1 >= " + numConst(c, d) + " AND s1 = 'zz')", "SELECT s1, * FROM t1 WHERE NOT b1 = true GROUP BY s1"})
+	}},
+	{"plain.scoped-aggregate", false, false, func(c *fw.Case, d *richDoc, vf string) string {
+		// aggregates called with an execution strategy over an array of the row itself
+		return gen.Pick(c.R, []string{"SELECT rid, SCOPED.AVG(scores) AS a, SCOPED.SUM(scores) AS s FROM t1", "SELECT rid, SCOPED.MIN(scores) AS lo, SCOPED.MAX(scores) AS hi, scores FROM t1", "SELECT rid, SCOPED.SUM(scores) AS s FROM t1 WHERE SCOPED.MAX(scores) >= 0"})
 	}},
 	{"plain.dual-alias-subquery", false, false, func(c *fw.Case, d *richDoc, vf string) string {
 		// a row-scoped subquery over dual under an alias: the row is the scope itself
